@@ -12,7 +12,7 @@ run_one() {
   (cd $S && patch -s -p1 < /verif/seeded/$id/patch.diff) || { echo "$id PATCH-FAILED"; rm -rf $S; return; }
   props=$prop
   [ "$id" = "C05-3" ] && props="C07"
-  out=$(VERIF_NO_EVIDENCE=1 VERIF_JOBS=6 PYTHONPATH=$S timeout 3000 ./check $props --tier quick 2>&1); rc=$?
+  out=$(VERIF_NO_EVIDENCE=1 VERIF_JOBS=${SEEDJOBS:-6} PYTHONPATH=$S timeout 3000 ./check $props --tier quick 2>&1); rc=$?
   nv=$(echo "$out" | grep -c '^VIOLATION')
   want=$(python3 -c "import json;print(json.load(open('/verif/seeded/$id/meta.json'))['caught_by_quick_check'])")
   [ "$id" = "C05-3" ] && want="True(C07)"
